@@ -545,7 +545,7 @@ func mutateField(rt *rapid.T, l string, doc tree, b base, f field, allowRisky bo
 	case "prf":
 		m[f.key] = rapid.SampledFrom([]interface{}{"hmac-sha512", "hmac-sha1", "HMAC-SHA256", "hmac-sha256 ", "", "sha256", "hmac-sha256\x00", "hmac-sha3-256"}).Draw(rt, l+".prf")
 	case "dklen":
-		choices := []interface{}{-1, 0, 16, 31, 33, 64, 1, 48, 1000, -32, 15, 17, 24, raw("32.0"), raw("3.2e1"), raw("-9223372036854775808"), raw("9223372036854775808"), raw("4294967328"), 65536, 1 << 20}
+		choices := []interface{}{-1, 0, 16, 31, 33, 64, 1, 48, 1000, -32, 15, 17, 24, raw("32.0"), raw("3.2e1"), raw("-9223372036854775808"), raw("9223372036854775808"), 65536, 1 << 20}
 		if allowRisky {
 			choices = append(choices, raw("2147483648"), raw("2147483648"), raw("2147483648"))
 		}
@@ -628,6 +628,26 @@ func mutateField(rt *rapid.T, l string, doc tree, b base, f field, allowRisky bo
 	return "value:" + f.kind, false
 }
 
+var cheapCost = map[string]int{"n": 4, "r": 1, "p": 1, "c": 2, "dklen": 32}
+
+// repairCosts puts cheap values back into every cost member, whatever its letter case or place.
+func repairCosts(v interface{}) {
+	switch x := v.(type) {
+	case tree:
+		for k, e := range x {
+			if cheap, ok := cheapCost[strings.ToLower(k)]; ok {
+				x[k] = cheap
+			} else {
+				repairCosts(e)
+			}
+		}
+	case []interface{}:
+		for _, e := range x {
+			repairCosts(e)
+		}
+	}
+}
+
 type mutant struct {
 	c        FileCase
 	labels   []string
@@ -679,13 +699,7 @@ func genMutant(rt *rapid.T, rec *evid.Recorder, allowRisky bool) mutant {
 	if reason := overCap(file); reason != "" && !(risky && reason == "dklen") {
 		// repair by construction: put the cheap cost parameters back (a combination of mutations drifted over the cap)
 		labels = append(labels, "mutant:cost-repaired")
-		if p := sub(sub(b.doc, "crypto"), "kdfparams"); p != nil {
-			for _, k := range []string{"n", "r", "p", "c", "dklen"} {
-				if _, ok := p[k]; ok {
-					p[k] = map[string]int{"n": 4, "r": 1, "p": 1, "c": 2, "dklen": 32}[k]
-				}
-			}
-		}
+		repairCosts(b.doc)
 		risky = false
 		recomputeMAC(b.doc, pw, b.kdf)
 		file, _ = json.Marshal(b.doc)
@@ -824,6 +838,22 @@ func probeCase() FileCase {
 	return newCase(b, []byte("pw"), false)
 }
 
+// namedRisky: the dklen = 2^31 files the property names, one per KDF, MAC valid for "pw".
+func namedRisky() []FileCase {
+	var out []FileCase
+	for _, kdf := range []string{v3ref.KDFPBKDF2, v3ref.KDFScrypt} {
+		doc, err := v3ref.Build(v3ref.Spec{KDF: kdf, N: 2, R: 1, P: 1, C: 1, Salt: []byte("saltsaltsaltsalt"), IV: []byte("0123456789abcdef"),
+			Secret: bytes.Repeat([]byte{0x42}, 32), Password: []byte("pw"), ID: "6a2175e5-e553-4e25-ad1b-569a3bb0c3fd"})
+		if err != nil {
+			panic(err)
+		}
+		sub(sub(doc, "crypto"), "kdfparams")["dklen"] = int64(1) << 31
+		b, _ := json.Marshal(doc)
+		out = append(out, newCase(b, []byte("pw"), true))
+	}
+	return out
+}
+
 func setup(rec *evid.Recorder) *evid.Kind[FileCase] {
 	k := evid.NewKind(rec, "file", judgeFile)
 	cipherFindingOpen = false
@@ -882,7 +912,17 @@ func TestCheck(t *testing.T) {
 	k := setup(rec)
 	rec.Corpus(t)
 
-	riskyBudget := 3 // dklen = 2^31 costs ~2 GiB and tens of seconds per evaluation on a tree that derives before it validates
+	if rec.Shard == 0 {
+		t.Run("named-risky", func(t *testing.T) {
+			for _, c := range namedRisky() {
+				done := declare(rec, c)
+				k.Must(t, c, true, "risky:declared", "mutant:dklen=2^31", "mac:valid")
+				done()
+			}
+		})
+	}
+
+	riskyBudget := 2 // dklen = 2^31 costs ~2 GiB and tens of seconds per evaluation on a tree that derives before it validates
 	rec.Rapid(t, "mutants", rec.N(4000, 30000), func(rt *rapid.T) {
 		m := genMutant(rt, rec, riskyBudget > 0)
 		if m.c.Risky {
